@@ -54,6 +54,7 @@ type Term struct {
 	sort     Sort
 	val      *big.Int // for const (BV, Int, Bool: 0/1)
 	name     string   // for var / uf name
+	hasQ     bool     // contains a quantifier
 	hasBound bool     // contains a quantifier-bound variable (never hoisted into define-fun)
 	bound    bool     // is a bound variable
 }
@@ -100,6 +101,12 @@ func (tb *TB) mk(op string, sort Sort, val *big.Int, name string, args ...*Term)
 		if a.hasBound {
 			t.hasBound = true
 		}
+		if a.hasQ {
+			t.hasQ = true
+		}
+	}
+	if op == "forall" {
+		t.hasQ = true
 	}
 	tb.tab[k] = t
 	return t
@@ -150,6 +157,10 @@ func (tb *TB) Forall(v *Term, body *Term) *Term {
 func sanitize(s string) string {
 	var sb strings.Builder
 	for _, r := range s {
+		if r == '#' { // '#' is not a legal SMT-LIB symbol character
+			sb.WriteByte('$')
+			continue
+		}
 		if (r >= 'a' && r <= 'z') || (r >= 'A' && r <= 'Z') || (r >= '0' && r <= '9') || r == '_' || r == '.' || r == '$' || r == '#' || r == '!' || r == '@' {
 			sb.WriteRune(r)
 		} else {
@@ -220,6 +231,7 @@ func (tb *TB) BVc(w int, v *big.Int) *Term {
 func (tb *TB) BVi(w int, v int64) *Term { return tb.BVc(w, big.NewInt(v)) }
 func (tb *TB) Intc(v int64) *Term       { return tb.mk("const", SInt, big.NewInt(v), "") }
 
+func (t *Term) hasForall() bool { return t.hasQ }
 func (t *Term) IsConst() bool { return t.op == "const" }
 func (t *Term) IsTrue() bool  { return t.op == "const" && t.sort.K == KBool && t.val.Sign() != 0 }
 func (t *Term) IsFalse() bool { return t.op == "const" && t.sort.K == KBool && t.val.Sign() == 0 }
@@ -947,4 +959,100 @@ func (tb *TB) DropQuantifiers(t *Term) *Term {
 		return res
 	}
 	return rec(t)
+}
+
+// ---------- quantifier instantiation aid ----------
+
+// Skolems returns the skolem constants (fresh BV64 variables introduced for goal-side universals) in t.
+func (tb *TB) Skolems(t *Term) []*Term {
+	var out []*Term
+	seen := map[int]bool{}
+	var rec func(x *Term)
+	rec = func(x *Term) {
+		if seen[x.id] {
+			return
+		}
+		seen[x.id] = true
+		if x.op == "var" && !x.bound && strings.Contains(x.name, "!sk") {
+			out = append(out, x)
+		}
+		for _, a := range x.args {
+			rec(a)
+		}
+	}
+	rec(t)
+	return out
+}
+
+// polarForalls collects forall subterms of t by polarity (outermost only). pol: +1 positive, -1 negative, 0 unknown.
+func (tb *TB) polarForalls(t *Term, pol int, pos, neg map[*Term]bool) {
+	switch t.op {
+	case "forall":
+		if pol > 0 {
+			pos[t] = true
+		} else {
+			neg[t] = true
+		}
+	case "and", "or":
+		for _, a := range t.args {
+			tb.polarForalls(a, pol, pos, neg)
+		}
+	case "not":
+		tb.polarForalls(t.args[0], -pol, pos, neg)
+	case "=>":
+		tb.polarForalls(t.args[0], -pol, pos, neg)
+		tb.polarForalls(t.args[1], pol, pos, neg)
+	case "ite":
+		if t.sort.K == KBool {
+			tb.polarForalls(t.args[0], 0, pos, neg)
+			tb.polarForalls(t.args[1], pol, pos, neg)
+			tb.polarForalls(t.args[2], pol, pos, neg)
+		}
+	default:
+		if t.sort.K == KBool {
+			for _, a := range t.args {
+				if a.sort.K == KBool {
+					tb.polarForalls(a, 0, pos, neg)
+				}
+			}
+		}
+	}
+}
+
+// InstantiateForalls returns consequences of the hypothesis a obtained by instantiating its positively
+// occurring universal quantifiers at the given ground terms (a |= every returned term).
+func (tb *TB) InstantiateForalls(a *Term, at []*Term, rounds, budget int) []*Term {
+	var out []*Term
+	seenOut := map[int]bool{a.id: true}
+	work := []*Term{a}
+	for r := 0; r < rounds && len(work) > 0; r++ {
+		var next []*Term
+		for _, h := range work {
+			pos, neg := map[*Term]bool{}, map[*Term]bool{}
+			tb.polarForalls(h, 1, pos, neg)
+			for q := range pos {
+				if neg[q] {
+					continue
+				}
+				v, body := q.args[0], q.args[1]
+				for _, g := range at {
+					if g.sort != v.sort {
+						continue
+					}
+					inst := tb.Subst(h, q, tb.Subst(body, v, g))
+					if seenOut[inst.id] {
+						continue
+					}
+					seenOut[inst.id] = true
+					if len(out) >= budget {
+						return out
+					}
+					out = append(out, inst)
+					next = append(next, inst)
+				}
+			}
+		}
+		work = next
+	}
+	return out
 }
